@@ -8,6 +8,13 @@ def hook_commits():
     return [l.split()[0] for l in out.splitlines() if "verif hook" in l]
 
 CLAIMED = {
+ "C15": dict(
+   level="exploration",
+   text="Two real full nodes (routing, verification, consensus processors) on SimNet with a fetch server over the peer's simulated disk: real handshake, BlockchainRequest, header-hash stream, fetches, verification, add. Seeded chain pairs (shared prefix 0..35/120 covering zero to several fork-id checkpoints, syncer suffix 0..8/30, peer suffix longer) x fetch batch size x seeded scheduling of every pending item x faults (duplicates, failed fetches, forced disconnect + reconnect, FIFO or any-order fetch completion). Oracle: peer announces every block after the true fork point; after faults stop the syncer reaches the peer's tip within 80 timer rounds; no processor panics.",
+   design="§6 C15",
+   note="Trusted: SimNet/fetch-server stubs mirroring saito-rust's network controller; handlers run to completion (event-granularity interleaving, not await-point interleaving). Runs in which a child is fetched before its parent fall into the orphan known-finding class and are reported under their own signatures. 16-bit fork-id collisions ignored.",
+   technique="deterministic simulation: two-node simulated network + fetch server, seeded schedules and network/fetch faults, bounded-liveness convergence oracle"),
+
  "C08": dict(
    level="exploration",
    text="Two seeded families through the real add_block. Work gate: one transaction set (fee classes x 8 routing-path shapes incl. forged, non-contiguous, self-hop, not ending at the creator) bundled at two timestamp offsets around the thresholds, each offered to a fresh replica; accepted => paths valid and independently computed u128 work >= parent burn fee / offset; acceptance monotone in the offset; no work needed from two heartbeats on. Payouts: routed fee-paying histories with three ticket patterns; every Fee-transaction output goes to the ticket solver, a hop recipient or a path-less sender of the blocks being paid, and the sum does not exceed the fees those blocks collected.",
